@@ -14,7 +14,7 @@ def strip_ref(p):
 
 
 def dispatch_loop(F):
-    return F.find("<impl machine::Machine>::dispatch_loop")
+    return F.find_impl("Machine", None, "dispatch_loop")
 
 
 def dispatch_arms(F):
